@@ -279,7 +279,8 @@ structure DLayer where
   c : List Nat                     -- the temporary division vector (for inspection)
   deriving Repr
 
-/-- the ValueError guards at the top of `_layer`; returns `(a[0], a[-1], b[-1], b[-2])` -/
+/-- the ValueError guards at the top of `_layer`; returns `(b[0], a[-1], b[-1], b[-2])` (`b[0]` is where the
+    temporary divisions start; equal to `a[0]` unless `force` allowed the new divisions to start lower) -/
 def dlGuards (a b : List Nat) (force : Bool) : Option (Nat × Nat × Nat × Nat) :=
   if a.length < 2 then none       -- precondition: `a` is the division tuple of a frame (≥ 1 partition)
   else if b.length < 2 then none  -- "New division must be longer than 2 elements"
@@ -290,7 +291,7 @@ def dlGuards (a b : List Nat) (force : Bool) : Option (Nat × Nat × Nat × Nat)
     let bL ← b.getLast?
     let bL2 ← b[b.length - 2]?
     if (if force then decide (a0 < b0 ∨ aL > bL) else decide (a0 ≠ b0 ∨ aL ≠ bL)) then none   -- ValueError guards
-    else some (a0, aL, bL, bL2)
+    else some (b0, aL, bL, bL2)
 
 /-- the part after the first walk: the remaining new divisions, or the single-last-division piece -/
 def dlRight (a b : List Nat) (aL bL bL2 : Nat) (s : W1) : Option (List Nat × List Slice) :=
@@ -308,8 +309,8 @@ def dlMarkLast : List Slice → Option (List Slice)
 /-- `RepartitionDivisions._layer` for old divisions `a`, new divisions `b`.
     `none` = the Python code raises (ValueError guards, IndexError/KeyError inside the walks). -/
 def divisionsLayer (a b : List Nat) (force : Bool) : Option DLayer := do
-  let (a0, aL, bL, bL2) ← dlGuards a b force
-  let s ← walk1 a b (a.length + b.length) { i := 1, j := 1, low := a0, c := [a0], d := [] }
+  let (c0, aL, bL, bL2) ← dlGuards a b force
+  let s ← walk1 a b (a.length + b.length) { i := 1, j := 1, low := c0, c := [c0], d := [] }
   let (c, d) ← dlRight a b aL bL bL2 s
   let d ← dlMarkLast d
   let out ← walk2 b c.reverse (isSingleLastDiv c.reverse) bL (bL != bL2) d.length (b.drop 1) 1 0
